@@ -176,7 +176,7 @@ def gen_str_payload(rng: random.Random, w: int, max_strings=12) -> bytes:
 def gen_section(rng: random.Random, kinds=None):
     """(name bytes, payload bytes, kind label)"""
     kind = rng.choice(kinds or ["MRGN", "TRIG", "UNIS", "UNIx", "UPRP", "UPUS", "SWNM", "WAV ", "STR ", "STRx",
-                               "unk-ascii", "unk-enum", "unk-bytes", "unk-utf8", "unk-empty"])
+                               "unk-ascii", "unk-enum", "unk-bytes", "unk-utf8", "unk-empty", "unk-near", "unk-near"])
     if kind in FIXED_SIZES:
         return kind.encode(), rand_bytes(rng, FIXED_SIZES[kind]), kind
     if kind == "MRGN":
@@ -189,7 +189,34 @@ def gen_section(rng: random.Random, kinds=None):
         return b"STR ", gen_str_payload(rng, 2), kind
     if kind == "STRx":
         return b"STRx", gen_str_payload(rng, 4), kind
-    if kind == "unk-ascii":
+    if kind == "unk-near":
+        # the neighbourhood of the recognised names: a name lookup that is too tolerant (stripped, case-folded,
+        # prefix-matched, NUL- or tab-padded) shows exactly here.  The payload is sometimes a legal body of the
+        # neighbouring section, sometimes not.
+        near = rng.choice([b"STR ", b"STRx", b"MRGN", b"TRIG", b"UNIS", b"UNIx", b"UPRP", b"UPUS", b"SWNM", b"WAV ", b"VER ", b"TYPE"])
+        how = rng.randrange(8)
+        if how == 0:
+            name = near[:3] + rng.choice([b"\t", b"\n", b"\r", b"\x00", b"\x0b", b"\x0c", b"\xa0", b"_"])
+        elif how == 1:
+            name = (b" " + near.strip())[:4].ljust(4, b" ")
+        elif how == 2:
+            name = near.swapcase()
+        elif how == 3:
+            name = near.lower()
+        elif how == 4:
+            name = bytes([near[0] ^ 0x20]) + near[1:]
+        elif how == 5:
+            name = near[1:] + near[:1]
+        elif how == 6:
+            name = (rng.choice([b"\n", b"\t", b"\r"]) + near.strip())[:4].ljust(4, b" ")
+        else:
+            pos = rng.randrange(4)
+            name = near[:pos] + bytes([near[pos] ^ (1 << rng.randrange(8))]) + near[pos + 1:]
+        if rng.random() < 0.5:
+            body = gen_section(rng, [near.decode()])[1] if near.decode() in ("STR ", "STRx", "MRGN", "TRIG", "UNIS", "UNIx", "UPRP", "UPUS", "SWNM", "WAV ") else rand_bytes(rng, 7)
+            if name not in (b"STR ", b"STRx", b"MRGN", b"TRIG", b"UNIS", b"UNIx", b"UPRP", b"UPUS", b"SWNM", b"WAV "):
+                return name, body, kind
+    elif kind == "unk-ascii":
         name = bytes(rng.randrange(32, 127) for _ in range(4))
     elif kind == "unk-enum":
         name = rng.choice(ENUM_NO_TRANSCODER).encode()
@@ -255,10 +282,24 @@ def gen_malformed_chk(rng: random.Random, seeds: list[bytes]):
     w = rng.choice([2, 4])
     p = bytearray(gen_str_payload(rng, w))
     how = rng.random()
-    if how < 0.35 and p:
+    if how < 0.25 and p:
         p = p[:-1] if p[-1] == 0 else p + b"x"
-    elif how < 0.7:
+    elif how < 0.5:
         p += bytes([rng.randrange(128, 256)]) + b"\0"
+    elif how < 0.75:
+        # a structurally well-formed table whose strings hold 8-bit text: valid multi-byte UTF-8 (Remastered /
+        # Korean maps), Latin-1 / CP949 bytes that are not UTF-8, and mixtures
+        words = [b"caf\xc3\xa9 bar", "\u20ac5".encode(), "\U0001F600".encode(), "\ud55c\uae00".encode(), b"caf\xe9", b"\xc7\xd1\xb1\xdb",
+                 b"a\xc3", b"\xa9b", "\u00e9".encode() * 3, b"plain"]
+        strs = [rng.choice(words) for _ in range(rng.choice([1, 2, 4]))]
+        n_ids = len(strs) + rng.choice([0, 1])
+        base = w + w * n_ids
+        offs, pos = [], 0
+        for s_ in strs:
+            offs.append(base + pos)
+            pos += len(s_) + 1
+        offs += [offs[0]] * (n_ids - len(strs))
+        p = bytearray(struct.pack(W[w], n_ids) + b"".join(struct.pack(W[w], o) for o in offs) + b"".join(s_ + b"\0" for s_ in strs))
     else:
         p[0:w] = struct.pack(W[w], rng.choice([2 ** (8 * w) - 1, 1000]))
     return frame(b"STR " if w == 2 else b"STRx", bytes(p)), "bad-str"
